@@ -219,6 +219,13 @@ pub fn judge_conn(sc: &Scenario, obs: &Obs, res: &RunResult, opts: &JudgeOpts) -
             }
             match &plan.read {
                 ReadPlan::None => (),
+                ReadPlan::OtherMethod { method } if *method >= 1000 => {
+                    // the first n bytes, end-of-stream not observed
+                    let n = (*method - 1000).min(want.body.len());
+                    if got.body[..] != want.body[..n] {
+                        fail(&mut f, "body-bytes", format!("request {}: reads around an empty-buffer read returned `{}`, expected `{}`", i, esc_short(&got.body, 60), esc_short(&want.body[..n], 60)));
+                    }
+                }
                 ReadPlan::ReadToEnd | ReadPlan::OtherMethod { .. } | ReadPlan::Sizes { limit: None, .. } if !want.body_complete => {
                     // the stream ended inside the body: how much of the fragment is handed
                     // out is not pinned down, but never bytes that are not part of it
